@@ -5,6 +5,8 @@ package harness
 //
 //   ext <typeURL> <signer>     the message with valid content and `signer` (a<i> | m<j>) in its signer
 //                              field; observation rej | ok
+//   ext <typeURL> gov          the authority's own run, NOT discarded (generated for MsgRecoverClient);
+//                              observation na: the model has no verdict on content, monitors only
 //
 // For every probe the same content is first delivered with the governance account as signer on a
 // discarded branch of the state ("dry run").  When that succeeds the probe REACHES the authority
@@ -162,6 +164,8 @@ func (p *c20Priv) extBuild(t c20ExtTarget, signer sdk.AccAddress, n int) (sdk.Ms
 			ibcclienttypes.NewHeight(2, 100), commitmenttypes.GetSDKSpecs(), []string{"upgrade", "upgradedIBCState"})
 		x.Plan = upgradetypes.Plan{Name: fmt.Sprintf("ibcvrf%d", n), Height: ctx.BlockHeight() + 2000}
 		x.UpgradedClientState = mustAny(cs.ZeroCustomFields())
+	case *ibcclienttypes.MsgRecoverClient:
+		x.SubjectClientId, x.SubstituteClientId = p.recoverPair()
 	case *ibctransfertypes.MsgUpdateParams:
 		x.Params = f.App.TransferKeeper.GetParams(ctx)
 	default:
@@ -185,7 +189,7 @@ func (p *c20Priv) execExt2(line string, f []string) string {
 		return "bad-op"
 	}
 	signer, ok := p.signerAddr(f[2])
-	if !ok || f[2] == "gov" {
+	if !ok {
 		return "bad-op"
 	}
 	var t *c20ExtTarget
@@ -196,6 +200,9 @@ func (p *c20Priv) execExt2(line string, f []string) string {
 	}
 	if t == nil {
 		return "bad-op"
+	}
+	if f[2] == "gov" {
+		return p.execExtGov(t) // c20_ibc_test.go
 	}
 	p.nonce++
 	n := p.nonce
@@ -259,4 +266,11 @@ func (p *c20Priv) finishExt() {
 	sort.Strings(miss)
 	p.s.r.Set("ext-kinds-reaching-guard", reach)
 	p.s.r.Set("ext-kinds-not-reaching-guard", miss)
+	var real []string
+	for _, t := range p.extT {
+		if n := p.stats["extpos:"+t.url]; n > 0 {
+			real = append(real, fmt.Sprintf("%s x%d", t.url, n))
+		}
+	}
+	p.s.r.Set("ext-kinds-accepted-from-authority-not-discarded", real)
 }
